@@ -45,7 +45,14 @@ def _representable(value: Any) -> bool:
         and not inspect.ismethod(value)
         and not inspect.ismodule(value)
         and not inspect.isbuiltin(value)
+        # The methods of the built-in types come in further guises (*e.g.*, ``a_list.__len__`` is a method-wrapper and
+        # ``list.append`` a method descriptor); their representation is of no use either and contains a memory address.
+        and not inspect.ismethoddescriptor(value)
+        and not isinstance(value, _METHOD_WRAPPER_TYPE)
     )
+
+
+_METHOD_WRAPPER_TYPE = type(object().__str__)
 
 
 class Visitor(ast.NodeVisitor):
